@@ -1,7 +1,397 @@
 import BridgeVerif.Model.Session
 import BridgeVerif.Lemmas.Confluence
+import BridgeVerif.Lemmas.SessionShapes
 /-! Helper lemmas for the session theorems (C08–C10): discipline of the session programs, the canonical run
 phase by phase, frame/shift/erasure glue. -/
 namespace Bridge
+set_option linter.unusedSectionVars false
+
+/-! ## generic lemmas about nets -/
+section generic
+variable {Tid Chan Msg Out : Type} [DecidableEq Tid] [DecidableEq Chan] {parties : List Tid}
+
+theorem Run.append {n n' n'' : Net Tid Chan Msg Out} {ts us : List Tid}
+    (h1 : Run parties n ts n') (h2 : Run parties n' us n'') : Run parties n (ts ++ us) n'' := by
+  induction h1 with
+  | nil n => exact h2
+  | cons hs _ ih => exact Run.cons hs (ih h2)
+
+/-- a step removes the head action of the stepping thread and leaves the other programs alone -/
+theorem step_prog {n n' : Net Tid Chan Msg Out} {t : Tid} (h : step parties n t = some n') :
+    ∃ a rest, n.prog t = a :: rest ∧ n'.prog = upd n.prog t rest := by
+  unfold step at h
+  split at h
+  · cases h
+  · next c m rest hp => cases h; exact ⟨_, _, hp, rfl⟩
+  · next c rest hp =>
+    split at h
+    · cases h
+    · cases h; exact ⟨_, _, hp, rfl⟩
+  · next rest hp => cases h; exact ⟨_, _, hp, rfl⟩
+  · next rest hp =>
+    split at h
+    · cases h; exact ⟨_, _, hp, rfl⟩
+    · cases h
+  · next o rest hp => cases h; exact ⟨_, _, hp, rfl⟩
+
+theorem sum_map_upd (f : Tid → List (Act Chan Msg Out)) (t : Tid) (a : Act Chan Msg Out)
+    (rest : List (Act Chan Msg Out)) (hf : f t = a :: rest) (all : List Tid) (hnd : all.Nodup) :
+    (all.map fun x => (f x).length).sum =
+      (all.map fun x => (upd f t rest x).length).sum + (if t ∈ all then 1 else 0) := by
+  induction all with
+  | nil => simp
+  | cons u us ih =>
+    have hnd' := List.nodup_cons.mp hnd
+    have ih := ih hnd'.2
+    simp only [List.map_cons, List.sum_cons, List.mem_cons]
+    by_cases hu : u = t
+    · subst hu
+      have : u ∉ us := hnd'.1
+      simp only [this, if_false, Nat.add_zero] at ih
+      simp [upd, hf, ih]
+      omega
+    · have h1 : upd f t rest u = f u := by simp [upd, hu]
+      have h2 : ¬ t = u := fun h => hu h.symm
+      rw [h1, ih]
+      simp only [h2, false_or]
+      omega
+
+/-- every step shortens exactly one program by one action -/
+theorem step_remaining {n n' : Net Tid Chan Msg Out} {t : Tid} {all : List Tid}
+    (hnd : all.Nodup) (hall : ∀ t, t ∈ all) (h : step parties n t = some n') :
+    n.remaining all = n'.remaining all + 1 := by
+  obtain ⟨a, rest, hp, hp'⟩ := step_prog h
+  unfold Net.remaining
+  rw [hp', sum_map_upd n.prog t a rest hp all hnd]
+  simp [hall t]
+
+theorem run_remaining {n n' : Net Tid Chan Msg Out} {ts : List Tid} {all : List Tid}
+    (hnd : all.Nodup) (hall : ∀ t, t ∈ all) (h : Run parties n ts n') :
+    n.remaining all = n'.remaining all + ts.length := by
+  induction h with
+  | nil n => simp
+  | cons hs _ ih => rw [step_remaining hnd hall hs, ih, List.length_cons]; omega
+
+theorem allDone_remaining {n : Net Tid Chan Msg Out} (h : AllDone n) (all : List Tid) :
+    n.remaining all = 0 := by
+  unfold Net.remaining
+  induction all with
+  | nil => rfl
+  | cons u us ih => simp [h u, ih]
+
+/-- One-directional simulation: `m` runs the programs of `n` followed by `rest`, has the same channel
+contents, and its barrier counts are those of `n` offset by (at least) `k` in the enabling direction.
+The histories and outputs are unrelated. -/
+structure Sim (parties : List Tid) (k : Nat) (rest : Tid → List (Act Chan Msg Out))
+    (n m : Net Tid Chan Msg Out) : Prop where
+  prog : ∀ t, m.prog t = n.prog t ++ rest t
+  chan : ∀ c, m.chan c = n.chan c
+  dep : ∀ t, m.departed t ≤ n.departed t + k
+  arr : ∀ q ∈ parties, n.arrived q + k ≤ m.arrived q
+
+theorem upd_append (f g : Tid → List (Act Chan Msg Out)) (rest : Tid → List (Act Chan Msg Out))
+    (t : Tid) (r : List (Act Chan Msg Out)) (h : ∀ x, g x = f x ++ rest x) (x : Tid) :
+    upd g t (r ++ rest t) x = upd f t r x ++ rest x := by
+  unfold upd
+  split
+  · next hx => rw [hx]
+  · exact h x
+
+theorem step_sim {k : Nat} {rest : Tid → List (Act Chan Msg Out)} {n m n' : Net Tid Chan Msg Out} {t : Tid}
+    (h : Sim parties k rest n m) (hs : step parties n t = some n') :
+    ∃ m', step parties m t = some m' ∧ Sim parties k rest n' m' := by
+  unfold step at hs
+  unfold step
+  rw [h.prog t]
+  split at hs
+  · cases hs
+  · next c x r hp =>
+    cases hs
+    rw [hp]
+    refine ⟨_, rfl, ⟨upd_append _ _ _ _ _ h.prog, ?_, h.dep, h.arr⟩⟩
+    intro c'
+    simp only [upd, h.chan]
+  · next c r hp =>
+    rw [hp]
+    simp only [List.cons_append, h.chan c]
+    split at hs
+    · cases hs
+    · next x ms hc =>
+      cases hs
+      refine ⟨_, rfl, ⟨upd_append _ _ _ _ _ h.prog, ?_, h.dep, h.arr⟩⟩
+      intro c'
+      simp only [upd]
+      split <;> simp [h.chan]
+  · next r hp =>
+    cases hs
+    rw [hp]
+    refine ⟨_, rfl, ⟨upd_append _ _ _ _ _ h.prog, h.chan, h.dep, ?_⟩⟩
+    intro q hq
+    have := h.arr q hq
+    simp only [upd]
+    split
+    · next hx => subst hx; omega
+    · exact this
+  · next r hp =>
+    rw [hp]
+    simp only [List.cons_append]
+    split at hs
+    · next hcd =>
+      cases hs
+      have hcd' : canDepart parties m t = true := by
+        unfold canDepart at hcd ⊢
+        rw [List.all_eq_true] at hcd ⊢
+        intro q hq
+        have h1 := hcd q hq
+        have h2 := h.arr q hq
+        have h3 := h.dep t
+        simp only [decide_eq_true_eq] at h1 ⊢
+        omega
+      rw [if_pos hcd']
+      refine ⟨_, rfl, ⟨upd_append _ _ _ _ _ h.prog, h.chan, ?_, h.arr⟩⟩
+      intro u
+      have := h.dep u
+      simp only [upd]
+      split
+      · next hx => subst hx; omega
+      · exact this
+    · cases hs
+  · next o r hp =>
+    cases hs
+    rw [hp]
+    exact ⟨_, rfl, ⟨upd_append _ _ _ _ _ h.prog, h.chan, h.dep, h.arr⟩⟩
+
+theorem run_sim {k : Nat} {rest : Tid → List (Act Chan Msg Out)} {n m n' : Net Tid Chan Msg Out}
+    {ts : List Tid} (h : Sim parties k rest n m) (hr : Run parties n ts n') :
+    ∃ m', Run parties m ts m' ∧ Sim parties k rest n' m' := by
+  induction hr generalizing m with
+  | nil n => exact ⟨m, Run.nil m, h⟩
+  | cons hs _ ih =>
+    obtain ⟨m1, hm1, hsim1⟩ := step_sim h hs
+    obtain ⟨m2, hm2, hsim2⟩ := ih hsim1
+    exact ⟨m2, Run.cons hm1 hm2, hsim2⟩
+
+/-! `sendsOn` / `emitsOf` distribute over concatenation -/
+theorem sendsOn_append (c : Chan) (l1 l2 : List (Act Chan Msg Out)) :
+    sendsOn c (l1 ++ l2) = sendsOn c l1 ++ sendsOn c l2 := by
+  induction l1 with
+  | nil => rfl
+  | cons a r ih =>
+    cases a <;> simp only [List.cons_append, sendsOn, ih]
+    split <;> simp
+
+theorem emitsOf_append (l1 l2 : List (Act Chan Msg Out)) :
+    emitsOf (l1 ++ l2) = emitsOf l1 ++ emitsOf l2 := by
+  induction l1 with
+  | nil => rfl
+  | cons a r ih => cases a <;> simp [emitsOf, ih]
+
+theorem sendsOn_flatMap {α : Type} (c : Chan) (l : List α) (f : α → List (Act Chan Msg Out)) :
+    sendsOn c (l.flatMap f) = l.flatMap fun x => sendsOn c (f x) := by
+  induction l with
+  | nil => rfl
+  | cons a r ih => simp [List.flatMap_cons, sendsOn_append, ih]
+
+theorem emitsOf_flatMap {α : Type} (l : List α) (f : α → List (Act Chan Msg Out)) :
+    emitsOf (l.flatMap f) = l.flatMap fun x => emitsOf (f x) := by
+  induction l with
+  | nil => rfl
+  | cons a r ih => simp [List.flatMap_cons, emitsOf_append, ih]
+
+end generic
+
+/-! ## the session: discipline, erasure to shapes, canonical run phase by phase -/
+section session
+variable {Msg Out : Type}
+theorem phaseProg_erase (ph : Phase Msg Out) (t : Tid) :
+    (phaseProg ph t).map Act.erase = phaseProg ph.shape.toPhase t := by
+  cases ph <;> cases t <;>
+    simp [phaseProg, Phase.shape, Shape.toPhase, forSeats, sync, Seat.all, Act.erase, apply_ite (List.map Act.erase)]
+
+theorem okActB_erase (t : Tid) (a : SAct Msg Out) : okActB t a.erase = okActB t a := by
+  cases a <;> rfl
+
+theorem phaseProg_ok (ph : Phase Msg Out) (t : Tid) (a : SAct Msg Out) (ha : a ∈ phaseProg ph t) :
+    okActB t a = true := by
+  have h := List.all_eq_true.mp (discShape_true ph.shape) t t.mem_all
+  rw [← phaseProg_erase, List.all_map] at h
+  have := List.all_eq_true.mp h a ha
+  simpa [okActB_erase] using this
+
+theorem phaseProg_disciplined (ph : Phase Msg Out) : Disciplined Chan.wr Chan.rd (phaseProg ph) := by
+  intro t a ha
+  have h := phaseProg_ok ph t a ha
+  constructor
+  · rintro c m rfl; simpa [okActB] using h
+  · rintro c rfl; simpa [okActB] using h
+
+theorem progOfPhases_disciplined (phs : List (Phase Msg Out)) :
+    Disciplined Chan.wr Chan.rd (progOfPhases phs) := by
+  intro t a ha
+  unfold progOfPhases at ha
+  obtain ⟨ph, _, hph⟩ := List.mem_flatMap.mp ha
+  exact phaseProg_disciplined ph t a hph
+
+
+
+theorem good_spec {e : ENet} (h : good e = true) :
+    (∀ t, e.prog t = []) ∧ (∀ c, e.chan c = []) ∧ (∀ t, e.departed t ≤ e.arrived .main) ∧
+    (∀ q ∈ parties, e.arrived .main ≤ e.arrived q) := by
+  simp only [good, Bool.and_eq_true, List.all_eq_true, decide_eq_true_eq, List.isEmpty_iff] at h
+  obtain ⟨⟨⟨h1, h2⟩, h3⟩, h4⟩ := h
+  exact ⟨fun t => h1 t t.mem_all, fun c => h2 c c.mem_all, fun t => h3 t t.mem_all, h4⟩
+
+/-- every phase, on its own, runs from the initial net to a state with all programs and channels empty and
+the barrier level -/
+theorem phase_run (ph : Phase Msg Out) :
+    ∃ ts n', Run parties (Net.init (phaseProg ph)) ts n' ∧ AllDone n' ∧ (∀ c, n'.chan c = []) ∧
+      ∃ j, (∀ t, n'.departed t ≤ j) ∧ (∀ q ∈ parties, j ≤ n'.arrived q) := by
+  have hrun := runLow_run 100 (Net.init (phaseProg ph.shape.toPhase))
+  have hgood : good _ = true := checkShape_true ph.shape
+  have he : (Net.init (phaseProg ph)).erase = Net.init (phaseProg ph.shape.toPhase) := by
+    show Net.init (fun t => (phaseProg ph t).map Act.erase) = _
+    congr 1; funext t; exact phaseProg_erase ph t
+  rw [← he] at hrun hgood
+  obtain ⟨n', hr, hn'⟩ := run_of_erased hrun
+  rw [← hn'] at hgood
+  obtain ⟨h1, h2, h3, h4⟩ := good_spec hgood
+  refine ⟨_, n', hr, ?_, ?_, n'.arrived .main, h3, h4⟩
+  · intro t; exact List.map_eq_nil_iff.mp (h1 t)
+  · intro c; exact List.map_eq_nil_iff.mp (h2 c)
+
+/-- boundary between phases: all channels empty, barrier level at `k` -/
+structure Boundary (k : Nat) (m : Net Tid Chan Msg Out) : Prop where
+  chan : ∀ c, m.chan c = []
+  dep : ∀ t, m.departed t ≤ k
+  arr : ∀ q ∈ parties, k ≤ m.arrived q
+
+theorem phases_run (phs : List (Phase Msg Out)) : ∀ (k : Nat) (m : Net Tid Chan Msg Out),
+    (∀ t, m.prog t = progOfPhases phs t) → Boundary k m →
+    ∃ ts m', Run parties m ts m' ∧ AllDone m' ∧ (∀ c, m'.chan c = []) := by
+  induction phs with
+  | nil => intro k m hp hb; exact ⟨[], m, Run.nil m, hp, hb.chan⟩
+  | cons ph phs ih =>
+    intro k m hp hb
+    obtain ⟨ts, n', hr, hdone, hchan, j, hdep, harr⟩ := phase_run ph
+    have hsim : Sim parties k (progOfPhases phs) (Net.init (phaseProg ph)) m :=
+      ⟨fun t => by rw [hp t]; simp [progOfPhases, Net.init], fun c => by simp [hb.chan c, Net.init],
+       fun t => by simpa [Net.init] using hb.dep t, fun q hq => by simpa [Net.init] using hb.arr q hq⟩
+    obtain ⟨m1, hr1, hsim1⟩ := run_sim hsim hr
+    have hb1 : Boundary (j + k) m1 :=
+      ⟨fun c => by rw [hsim1.chan c, hchan c],
+       fun t => by have := hsim1.dep t; have := hdep t; omega,
+       fun q hq => by have := hsim1.arr q hq; have := harr q hq; omega⟩
+    obtain ⟨us, m2, hr2, hd2, hc2⟩ := ih (j + k) m1 (fun t => by rw [hsim1.prog t, hdone t]; rfl) hb1
+    exact ⟨ts ++ us, m2, hr1.append hr2, hd2, hc2⟩
+
+theorem progOfPhases_run (phs : List (Phase Msg Out)) :
+    ∃ ts nf, Run parties (Net.init (progOfPhases phs)) ts nf ∧ AllDone nf ∧ (∀ c, nf.chan c = []) :=
+  phases_run phs 0 _ (fun _ => rfl) ⟨fun _ => rfl, fun _ => Nat.le_refl _, fun _ _ => Nat.le_refl _⟩
+
+end session
+
+/-! ## what the session sends to the clients last, and what it writes to the log -/
+section
+variable {Msg Out : Type}
+
+theorem sendsOn_progOfPhases (c : Chan) (phs : List (Phase Msg Out)) (t : Tid) :
+    sendsOn c (progOfPhases phs t) = phs.flatMap fun ph => sendsOn c (phaseProg ph t) :=
+  sendsOn_flatMap c phs _
+
+theorem emitsOf_progOfPhases (phs : List (Phase Msg Out)) (t : Tid) :
+    emitsOf (progOfPhases phs t) = phs.flatMap fun ph => emitsOf (phaseProg ph t) :=
+  emitsOf_flatMap phs _
+
+/-- what main writes to the log during a phase -/
+def Phase.emits : Phase Msg Out → List Out
+  | .seating _ _ _ o => [o]
+  | .nextBoard r _ _ => [r]
+  | .lastBoard r c _ => [r, c]
+  | .deal .. => []
+  | .call .. => []
+  | .auctionEnd .. => []
+  | .playStart .. => []
+  | .card .. => []
+
+theorem emitsOf_phaseProg_main (ph : Phase Msg Out) : emitsOf (phaseProg ph .main) = ph.emits := by
+  cases ph <;>
+    simp [phaseProg, forSeats, sync, Seat.all, emitsOf_append, emitsOf, Phase.emits, apply_ite emitsOf]
+
+theorem emitsOf_progOfPhases_main (phs : List (Phase Msg Out)) :
+    emitsOf (progOfPhases phs .main) = phs.flatMap Phase.emits := by
+  rw [emitsOf_progOfPhases]; congr 1; funext ph; exact emitsOf_phaseProg_main ph
+end
+
+theorem callPhases_emits (dealer : Seat) (l : List (Call × Text)) : ∀ j,
+    (callPhases dealer j l).flatMap Phase.emits = [] := by
+  induction l with
+  | nil => intro j; rfl
+  | cons x r ih => intro j; obtain ⟨c, text⟩ := x; simp [callPhases, Phase.emits, ih]
+
+theorem cardPhases_emits (d : Seat) (deal : Hands) (l : List (Card × Text)) : ∀ s j,
+    (cardPhases d deal s j l).flatMap Phase.emits = [] := by
+  induction l with
+  | nil => intro s j; rfl
+  | cons x r ih =>
+    intro s j; obtain ⟨c, text⟩ := x
+    simp only [cardPhases, List.flatMap_cons, Phase.emits, ih, List.nil_append]
+
+theorem boardPhases_emits (sc : Scenario) (k : Nat) (last : Bool) (b : BoardSetting) (d : Decisions) :
+    (boardPhases sc k last b d).flatMap Phase.emits =
+      LogOp.write (recordOf sc b d) :: (if last then [LogOp.close] else []) := by
+  unfold boardPhases
+  simp only [List.flatMap_append, callPhases_emits]
+  split <;> split <;> cases last <;>
+    simp only [List.flatMap_cons, List.flatMap_nil, Phase.emits, cardPhases_emits, List.nil_append,
+      List.append_nil, if_true, if_false, Bool.false_eq_true]
+
+theorem boardsPhases_emits (sc : Scenario) (boards : List (BoardSetting × Decisions)) (h : boards ≠ []) :
+    ∀ k, (boardsPhases sc k boards).flatMap Phase.emits =
+      (boards.map fun bd => LogOp.write (recordOf sc bd.1 bd.2)) ++ [LogOp.close] := by
+  induction boards with
+  | nil => exact absurd rfl h
+  | cons x r ih =>
+    intro k
+    obtain ⟨b, d⟩ := x
+    cases r with
+    | nil => simp [boardsPhases, boardPhases_emits]
+    | cons y r' =>
+      have := ih (by simp) (k + 1)
+      rw [boardsPhases, List.flatMap_append, this, boardPhases_emits]
+      · simp
+      · simp
+
+theorem boardsPhases_last (sc : Scenario) (boards : List (BoardSetting × Decisions)) (h : boards ≠ []) :
+    ∀ k, ∃ pre r, boardsPhases sc k boards = pre ++ [Phase.lastBoard r LogOp.close MSG_END] := by
+  induction boards with
+  | nil => exact absurd rfl h
+  | cons x r ih =>
+    intro k
+    obtain ⟨b, d⟩ := x
+    cases r with
+    | nil =>
+      refine ⟨?_, LogOp.write (recordOf sc b d), ?_⟩
+      rotate_left
+      · simp only [boardsPhases, boardPhases, if_true]
+        exact rfl
+    | cons y r' =>
+      obtain ⟨pre, r, hpre⟩ := ih (by simp) (k + 1)
+      refine ⟨boardPhases sc k false b d ++ pre, r, ?_⟩
+      rw [boardsPhases, hpre, List.append_assoc]
+      simp
+
+theorem session_last_s2c (sc : Scenario) (h : sc.boards ≠ []) (p : Seat) :
+    (sendsOn (Chan.s2c p) (sessionProg sc (.seat p))).getLast? = some MSG_END := by
+  obtain ⟨pre, r, hpre⟩ := boardsPhases_last sc sc.boards h 1
+  unfold sessionProg sessionPhases
+  rw [hpre, sendsOn_progOfPhases, ← List.cons_append, List.flatMap_append]
+  simp [phaseProg, sendsOn]
+
+theorem session_log (sc : Scenario) (h : sc.boards ≠ []) :
+    emitsOf (sessionProg sc .main) =
+      LogOp.open :: (sc.boards.map fun bd => LogOp.write (recordOf sc bd.1 bd.2)) ++ [LogOp.close] := by
+  unfold sessionProg sessionPhases
+  rw [emitsOf_progOfPhases_main, List.flatMap_cons, boardsPhases_emits sc sc.boards h 1]
+  rfl
 
 end Bridge
